@@ -24,11 +24,32 @@ StackOK(e) == e.hwm <= StackBudget
 \* n counted in input edges (size); written with a division to stay inside 32 bits
 EventsOK(e) == e.popped = 0 \/ e.size = 0 \/ (e.popped \div e.size) <= 4 * e.size + 2
 
+\* Scenarios with a closed-form result: two crossing combs with n teeth each ("combx"; "combxfar":
+\* the first comb carries one more far-away rectangle of area 6).  The n^2 tooth crossings are
+\* squares of area 4; the comb has area 8n^2 + 16n - 4.  What the real code returned is projected to
+\* (number of polygons, twice the area): C01 and C09 at a size the region oracle cannot reach.
+IsComb(e) == e.scenario \in {"bool:combx:int", "bool:combx:union", "bool:combx:diff", "bool:combx:xor",
+                              "bool:combxfar:int", "bool:combxfar:union", "bool:combxfar:diff", "bool:combxfar:xor"}
+Far(e) == e.scenario \in {"bool:combxfar:int", "bool:combxfar:union", "bool:combxfar:diff", "bool:combxfar:xor"}
+OpOf(e) == CASE e.scenario \in {"bool:combx:int", "bool:combxfar:int"} -> "int"
+             [] e.scenario \in {"bool:combx:union", "bool:combxfar:union"} -> "union"
+             [] e.scenario \in {"bool:combx:diff", "bool:combxfar:diff"} -> "diff"
+             [] OTHER -> "xor"
+CombArea(n) == 8*n*n + 16*n - 4
+ExpectedPolys(e) == LET n == e.n  f == IF Far(e) THEN 1 ELSE 0 IN
+                    CASE OpOf(e) = "int" -> n*n [] OpOf(e) = "union" -> 1 + f
+                      [] OpOf(e) = "diff" -> n*n + 1 + f [] OTHER -> 2*n*n + 2 + f
+ExpectedArea2(e) == LET n == e.n  f == IF Far(e) THEN 12 ELSE 0 IN
+                    CASE OpOf(e) = "int" -> 8*n*n [] OpOf(e) = "union" -> 2*(2*CombArea(n) - 4*n*n) + f
+                      [] OpOf(e) = "diff" -> 2*(CombArea(n) - 4*n*n) + f [] OTHER -> 2*(2*CombArea(n) - 8*n*n) + f
+ShapeOK(e) == IsComb(e) => (e.polys = ExpectedPolys(e) /\ e.area2 = ExpectedArea2(e))
+
 Judge == /\ bad = {} /\ i # 0
          /\ LET e == Evs[i]
                 v == (IF ~Completes(e) THEN {"exit"} ELSE {})
                      \cup (IF Completes(e) /\ ~StackOK(e) THEN {"stack"} ELSE {})
                      \cup (IF Completes(e) /\ ~EventsOK(e) THEN {"events"} ELSE {})
+                     \cup (IF Completes(e) /\ ~ShapeOK(e) THEN {"shape"} ELSE {})
             IN /\ bad' = v
                /\ \A x \in v : PrintT(<<"STACKFAIL", x, i>>)
          /\ i' = 0
@@ -39,4 +60,5 @@ Spec == Init /\ [][Next]_vars
 C18_Completes == "exit" \notin bad
 C18_StackIndependentOfSize == "stack" \notin bad
 C03_EventBound == "events" \notin bad
+C01_LargeResultShape == "shape" \notin bad
 =============================================================================
